@@ -26,6 +26,7 @@ class Coded(Mode):
         self.add_mode_event_handler("coded_ping", self._ping)
         self.add_mode_event_handler("coded_ping{machine.c07_flag==1}", self._ping_cond, priority=5)
         self.add_mode_event_handler("coded_later", self._later, extra=1)
+        self.add_mode_event_handler("coded_watch", self._watch)
         sc = self.machine.switch_controller
         self.switch_handlers.append(sc.add_switch_handler("s_code", self._sw, 1))
         self.switch_handlers.append(sc.add_switch_handler("s_code", self._sw_off, 0))
@@ -53,6 +54,14 @@ class Coded(Mode):
         # typical "do it a bit later" handler
         self._note("later")
         self.delay.add(ms=150, callback=self._late_work, name="late_work")
+
+    def _watch(self, **kwargs):
+        # start watching a switch when asked to (the handler is tracked in switch_handlers like in attract mode)
+        self._note("watch")
+        self.switch_handlers.append(self.machine.switch_controller.add_switch_handler("s_misc", self._sw_misc, 1))
+
+    def _sw_misc(self):
+        self._note("sw_misc")
 
     def _late_work(self):
         self._note("late_work")
